@@ -307,6 +307,7 @@ def main():
             'rule': res['rule'], 'samples': res['samples'][:8], 'input_classes': res.get('classes', {}),
             'known_findings_hit': {s: c for s, (k, c) in known_hit.items()},
             'correspondence': res.get('corr', {}),
+            'exhaustive': bool(res.get('exhaustive', False) or res.get('corr', {}).get('exhaustive', False)),
             'notes': ctx.notes[:20] + log,
         },
         'assumptions': getattr(mod, 'ASSUMPTIONS', []),
